@@ -302,8 +302,8 @@ static int parse_meta(const rtlv *t) {
 		uint64_t v;
 		if (rtlv_read(t->val + off, t->len - off, &e) != 0) return -1;
 		if (e.tag > 0x1f) return -1;
-		/* compared domain: elements inside hashed metadata are in their shortest header form */
-		if (e.is16 && e.len <= 0xff) return -1;
+		/* an element inside hashed metadata may be coded with the long header although the short one would do: the record is hashed
+		 * as it is carried; only the padding element has to be a TLV8 (a consistency condition, see meta_padding_bad) */
 		if (seen[e.tag]++) return -1;
 		switch (e.tag) {
 			case 0x1e: if (off != 0) return -1; /* positional constraint of the schema: padding comes first */ break;
